@@ -54,6 +54,9 @@ fn bodies() -> Vec<(&'static str, Vec<u8>)> {
         ("BITS R0,R1;BITC (R2),R0", vec![0xF1, 0x50, 0xF0, 0x66]),
         ("RRC;ASR", vec![0x40, 0x3D]),
         ("LDSP 0xE0", vec![0xFB, 0xE0, 0x40]),
+        // the key-edge enable bit taken away and given back by the main program: a key pressed while it was
+        // still set stays latched across the write that clears it
+        ("MICR off;NOP;MICR on", vec![0xFB, 0x3E, 0x1F, 0xF9, 0x02, 0xFB, 0x01, 0x5F, 0xF9]),
         // a regular stop in the main program: the harness presses continue six clock periods later
         ("STOP", vec![0x01]),
     ]
@@ -528,7 +531,7 @@ fn family(quick: bool) -> Vec<Prog> {
         }
     }
     // enable bit never set; set but EI absent
-    for s in seqs.iter().filter(|s| s.len() == 1) {
+    for s in seqs.iter().filter(|s| s.len() == 1 && !b[s[0]].0.starts_with("MICR")) {
         let body: Vec<(&'static str, Vec<u8>)> = s.iter().map(|&i| b[i].clone()).collect();
         v.push(build(&body, 1, false, true, 1));
         v.push(build(&body, 1, false, true, 2));
@@ -536,7 +539,7 @@ fn family(quick: bool) -> Vec<Prog> {
     }
     // second lives: the enable-bit-clear and the ordinary programs on a machine that was reset after a
     // first program had enabled (and taken) the key interrupt
-    for s in seqs.iter().filter(|s| s.len() == 1).step_by(if quick { 3 } else { 1 }) {
+    for s in seqs.iter().filter(|s| s.len() == 1 && !b[s[0]].0.starts_with("MICR")).step_by(if quick { 3 } else { 1 }) {
         let body: Vec<(&'static str, Vec<u8>)> = s.iter().map(|&i| b[i].clone()).collect();
         for pre in [1u8, 2] {
             for (isr, enable, ei, init) in [(1usize, false, true, 1usize), (1, false, true, 2), (1, true, true, 0), (2, true, false, 3)] {
@@ -730,7 +733,7 @@ pub fn run() {
     ctx.set("distinct_nontrivial", all.runs - all.by_count.get(&0).cloned().unwrap_or(0));
     ctx.set("rule", "schedule = (program, multiset of trigger edges); deviation 0: no trigger; 1: one trigger before every clock edge 0..T of the run; 2: every ordered pair of trigger edges in a 120-edge window; every schedule is executed edge by edge on the real machine and compared with the uninterrupted twin; distinct_nontrivial = schedules in which the routine was entered at least once");
     ctx.set("exhaustive", true);
-    ctx.set("bounds", format!("{} programs (prologue + every body sequence of length <= {} over 26 instruction kinds x ISRs {{RETI, counter, MUL+CALL, re-entrant}}, + enable-bit-clear and EI-less variants, second lives after a cpu/master reset, a STOP in the main program followed by continue; programs that are not transparent by construction left out); deviation bound 2; + runs with 400 / 40 / 200 presses for the counter routine (pairs on {} of the programs)", fam.len(), if quick { 2 } else { 3 }, if quick { "1/4" } else { "all" }));
+    ctx.set("bounds", format!("{} programs (prologue + every body sequence of length <= {} over 27 instruction kinds (incl. a body that clears and re-sets the key-edge enable bit) x ISRs {{RETI, counter, MUL+CALL, re-entrant}}, + enable-bit-clear and EI-less variants, second lives after a cpu/master reset, a STOP in the main program followed by continue; programs that are not transparent by construction left out); deviation bound 2; + runs with 400 / 40 / 200 presses for the counter routine (pairs on {} of the programs)", fam.len(), if quick { 2 } else { 3 }, if quick { "1/4" } else { "all" }));
     ctx.set("schedules", all.runs);
     ctx.set("programs_checked", all.programs);
     ctx.set("programs_left_out_not_transparent_by_construction", all.ill_formed);
